@@ -66,6 +66,21 @@ func c34(p *an.Prog, r *an.R, tier string) {
 				continue
 			}
 			isV := g.HasCallTo(vf)
+			// the validation may sit in a helper of the package that the function calls (readInventory inside
+			// a pruneStaleShards helper): a call to such a helper counts
+			var vHelpers []*types.Func
+			for _, x := range calleeDecls(p, d) {
+				if x != d && len(an.CallsTo(info, x.Decl.Body, false, vf)) > 0 {
+					if hf, ok := info.Defs[x.Decl.Name].(*types.Func); ok {
+						vHelpers = append(vHelpers, hf)
+					}
+				}
+			}
+			if len(vHelpers) > 0 {
+				direct := isV
+				viaHelper := g.HasCallTo(vHelpers...)
+				isV = func(l an.Loc) bool { return direct(l) || viaHelper(l) }
+			}
 			// a validation that stayed in the entry point, before the call of the helper, counts as well
 			doneInEntry := false
 			if d != entry {
